@@ -95,7 +95,7 @@ func c20GPSInstant(c *core.Ctx, t time.Time, tag string) time.Duration {
 
 func c20GPSDuration(c *core.Ctx, d time.Duration) {
 	want, ok := gpsModelInverse(d)
-	if !ok || d < 0 {
+	if !ok {
 		c.Count("gps.durations-inside-leap-second-skipped", 1)
 		return
 	}
@@ -230,6 +230,22 @@ func runC20(c *core.Ctx) {
 		if c.WantSample("gps-leaps") {
 			c.Sample("gps-leaps", map[string]interface{}{"utc": l.Add(-500 * time.Millisecond).Format(time.RFC3339Nano), "model_gps_seconds": gpsModelForward(l.Add(-500 * time.Millisecond)).Seconds()})
 		}
+	}
+	// extreme values: instants before the GPS epoch (1980-01-01 .. 01-06), negative durations, durations beyond 2^32 s
+	if c.Whole("gps-extremes") {
+		r := c.RNG("gps-extremes", 0)
+		start := time.Date(1980, 1, 1, 0, 0, 0, 0, time.UTC)
+		for k := 0; k < 4000; k++ {
+			t := start.Add(time.Duration(r.U64() % uint64(6*24*time.Hour)))
+			c20GPSInstant(c, t, "pre-epoch")
+			c20GPSDuration(c, -time.Duration(r.U64()%uint64(10*24*time.Hour)))
+			c20GPSDuration(c, time.Duration(1<<32)*time.Second+time.Duration(int64(r.U64()%uint64(40*time.Second)))-20*time.Second)
+			c20GPSDuration(c, time.Duration(r.U64()%uint64(1<<33))*time.Second)
+		}
+		for _, d := range []time.Duration{-1, -time.Second, -18 * time.Second, -19 * time.Second, time.Duration(1<<32-1) * time.Second, time.Duration(1<<32) * time.Second, time.Duration(1<<32+1) * time.Second, 1<<62 - 1} {
+			c20GPSDuration(c, d)
+		}
+		c.Shape("gps-extremes")
 	}
 	n := c.N(50000, 40000000)
 	span := time.Date(2100, 1, 1, 0, 0, 0, 0, time.UTC).Sub(gpsEpochUnix)
